@@ -635,6 +635,19 @@ LIFE_INVALID = (("generate", 2.5), ("generate", "3"), ("skip", None),
                 ("set_shape", "x"), ("set_shape", (-1,)), ("set_shape", (2.5,)))
 # outside the property's domain and not documented to raise: accepted -> terminal state, raised -> as above
 LIFE_OUT_OF_DOMAIN = (("generate", 0), ("generate", -1), ("skip", -5))
+# the generator is replaced by a clone of itself; the clone must go on exactly where the original stood (same
+# position, same phases -> same following samples), the original must be unaffected by the use of the clone
+LIFE_CLONE = (("clone", "copy"), ("clone", "deepcopy"), ("clone", "pickle"))
+
+
+def clone_of(obj, how):
+    import copy
+    import pickle
+    if how == "copy":
+        return copy.copy(obj)
+    if how == "deepcopy":
+        return copy.deepcopy(obj)
+    return pickle.loads(pickle.dumps(obj))
 
 
 LIFE_FD0 = (0.0, 1e-3, 8, (2, 3))     # zero Doppler x shape reassignment after blocks of 1 / >= 2 samples
@@ -680,6 +693,8 @@ class LState:
         self.note = None              # outcome of the last invalid call (tools/INVALID_CALL_POLICY.md)
         self.spec_a = None
         self.after_invalid = None     # the first invalid call of the history, if any
+        self.orig = None              # view of the generator a clone was taken from
+        self.clone_note = None
 
 
 def _view(g, phi, psi, s0, k):
@@ -716,6 +731,18 @@ def build_life(cfg, hist):
         st.last = "b" if on_b else "a"
         st.note = None
         base = kind[2:] if on_b else kind
+        if base == "clone":
+            try:
+                c = clone_of(o.g, n)
+            except Exception as e:  # noqa - cloning is not part of the property: unavailable = outcome only
+                st.clone_note = (n, "unavailable:" + type(e).__name__)
+                return st
+            st.clone_note = (n, "cloned")
+            orig = JState()
+            orig.g, orig.phi, orig.psi, orig.s0, orig.k, orig.kept = o.g, o.phi, o.psi, o.s0, o.k, o.kept
+            st.orig = orig
+            o.g, o.kept = c, []
+            continue
         if base == "scribble":
             # the caller overwrites the array it was last given; nothing about the process may change
             if o.kept:
@@ -842,6 +869,22 @@ def check_life(chk, cfg, hist, st):
         return
     if st.note is not None:
         return
+    if st.clone_note is not None:
+        chk.outcome("clone", (cfg["root"][0], cfg["Fd"] == 0) + st.clone_note)
+        chk.count("eval_clones")
+        if st.orig is None:
+            return                     # could not be cloned (e.g. its random source is a module): nothing to judge
+    if st.orig is not None and hist[-1][0] != "clone":
+        check_original_after_clone(chk, st, case)
+    if hist and hist[-1][0] == "clone":
+        g, o = st.a.g, st.orig.g
+        for name in ("Fd", "Ts", "L"):
+            if getattr(g, name) != getattr(o, name):
+                chk.fail(("clone", st.clone_note[0], "property_" + name), case, observed=getattr(g, name),
+                         expected=getattr(o, name))
+        if (g.shape is None) != (o.shape is None) or shape_tuple(_tuplify(g.shape)) != shape_tuple(_tuplify(o.shape)):
+            chk.fail(("clone", st.clone_note[0], "property_shape"), case, observed=g.shape, expected=o.shape)
+        return
     if not hist:
         # the derived generator: configuration of the parent, sample 0 of its own process
         check_state(chk, cfg, (), st.a, case=case)
@@ -866,6 +909,37 @@ def check_life(chk, cfg, hist, st):
         check_kept(chk, st.spec_b, st.b, case)      # ... also the pieces the OTHER generator handed out
 
 
+def check_original_after_clone(chk, st, case):
+    """the original the clone was taken from still stands where it stood: its next samples are those of its own
+    position (formula / identically seeded twin), and the pieces it handed out are untouched"""
+    o, spec = st.orig, st.spec_a
+    if spec.get("no_twins"):
+        return
+    check_kept(chk, spec, o, case)
+    shp = shape_tuple(spec["shape"])
+    o.g.generate_more_samples(3)
+    s = np.asarray(o.g.get_samples())
+    chk.count("eval_original_after_clone")
+    if s.shape != shp + (3,):
+        chk.fail(("clone", st.clone_note[0], "original_wrong_shape"), case, observed=s.shape, expected=shp + (3,))
+        return
+    tol = value_tol(spec, o.k + 3)
+    if not no_formula(chk, o):
+        ref = jakes_reference(spec, o.phi, o.psi, o.k, 3)
+        if not np.all(np.abs(s - ref) <= tol):
+            chk.fail(("clone", st.clone_note[0], "original_affected_by_use_of_the_clone"), case,
+                     observed=s.ravel()[:3], expected=ref.ravel()[:3])
+    ks = spec.get("k_start", 1)
+    f = new_generator(spec)
+    if o.k > ks:
+        f.skip_samples_for_next_generation(o.k - ks)
+    f.generate_more_samples(3)
+    w = np.asarray(f.get_samples())
+    if w.shape != s.shape or not np.all(np.abs(w - s) <= tol):
+        chk.fail(("clone", st.clone_note[0], "original_affected_by_use_of_the_clone"), case,
+                 observed=s.ravel()[:3], expected=w.ravel()[:3])
+
+
 class AfterInvalid:
     """violations found after an invalid call get the signature after_invalid_call|<what>|<relation>"""
     def __init__(self, chk, what):
@@ -880,7 +954,7 @@ class AfterInvalid:
 
 
 def run_life(chk, cfg, depth):
-    evs = list(LIFE_VALID) + list(LIFE_INVALID) + list(LIFE_OUT_OF_DOMAIN)
+    evs = list(LIFE_VALID) + list(LIFE_INVALID) + list(LIFE_OUT_OF_DOMAIN) + list(LIFE_CLONE)
 
     def b(hist):
         return build_life(cfg, hist)
@@ -894,8 +968,12 @@ def run_life(chk, cfg, depth):
             # the last event of a history is only useful when it observes something
             return [("generate", 7), ("b_generate", 3)]
         ok = evs
+        if st.clone_note is not None and st.orig is None:
+            return []                     # cloning unavailable: nothing follows
+        if any(e[0] == "clone" for e in hist):
+            ok = [e for e in ok if e[0] != "clone"]          # one clone per history
         if any(e in LIFE_INVALID or e in LIFE_OUT_OF_DOMAIN for e in hist):
-            ok = [e for e in ok if e in LIFE_VALID]          # one invalid call per history (budget)
+            ok = [e for e in ok if e in LIFE_VALID or e in LIFE_CLONE]   # one invalid call per history (budget)
         if hist:
             ok = [e for e in ok if e[0] != "scribble" or hist[-1][0] in ("generate", "b_generate")]
         return ok
@@ -907,7 +985,7 @@ def run_life(chk, cfg, depth):
     def canon(hist, st):
         if st.problem is not None or st.a is None:
             return ("failed", hist)
-        return (st.a.k, st.b.k, st.note, st.after_invalid, _digest(st.a.g), _digest(st.b.g))
+        return (st.a.k, st.b.k, st.note, st.after_invalid, st.clone_note, _digest(st.a.g), _digest(st.b.g))
 
     bfs.BFS(chk, b, enabled, invariant, canon, depth, label="life%d" % cfg["index"]).run([()])
 
@@ -1305,6 +1383,7 @@ def main(chk: Check):
         chk.require_outcomes("rayleigh", 6)
         chk.require_outcomes("large_request", 30)
         chk.require_outcomes("size_type_x_position", 12)
+        chk.require_outcomes("clone", 6)
 
 
 def replay(case, chk: Check):
